@@ -57,9 +57,9 @@ PROP_GROUPS = {
 }
 
 PROP_SYNC = {
-    "C01": ["gen/GenConsts.v", "gen/SyncEnc.v", "gen/SyncDec.v", "gen/SyncMisc.v", "gen/SyncApi.v"],
-    "C02": ["gen/GenConsts.v", "gen/SyncEnc.v", "gen/SyncMisc.v", "gen/SyncApi.v"],
-    "C03": ["gen/GenConsts.v", "gen/SyncDec.v", "gen/SyncMisc.v"],
+    "C01": ["gen/GenConsts.v", "gen/SyncEnc.v", "gen/SyncDec.v", "gen/SyncMisc.v", "gen/SyncApi.v", "gen/SyncAcc.v"],
+    "C02": ["gen/GenConsts.v", "gen/SyncEnc.v", "gen/SyncMisc.v", "gen/SyncApi.v", "gen/SyncAcc.v"],
+    "C03": ["gen/GenConsts.v", "gen/SyncDec.v", "gen/SyncMisc.v", "gen/SyncAcc.v"],
     "C04": ["gen/SyncDec.v", "gen/SyncMisc.v"],
     "C05": ["gen/SyncDec.v", "gen/SyncMisc.v"],
     "C06": ["gen/SyncDec.v", "gen/SyncMisc.v"],
@@ -68,14 +68,14 @@ PROP_SYNC = {
     "C09": ["gen/GenConsts.v", "gen/SyncDec.v", "gen/SyncMisc.v"],
     "C10": ["gen/SyncEnc.v", "gen/SyncMisc.v"],
     "C11": ["gen/SyncEnc.v", "gen/SyncMisc.v", "gen/SyncApi.v", "gen/SyncEffects.v"],
-    "C12": ["gen/GenConsts.v", "gen/SyncEnc.v", "gen/SyncApi.v"],
+    "C12": ["gen/GenConsts.v", "gen/SyncEnc.v", "gen/SyncApi.v", "gen/SyncAcc.v"],
     "C13": ["gen/SyncEnc.v", "gen/SyncDec.v", "gen/SyncMisc.v", "gen/SyncEffects.v"],
     "C14": ["gen/SyncDec.v", "gen/SyncMisc.v", "gen/SyncEffects.v"],
     "C15": [],
-    "C16": ["gen/GenConsts.v", "gen/SyncEnc.v", "gen/SyncDec.v", "gen/SyncMisc.v"],
+    "C16": ["gen/GenConsts.v", "gen/SyncEnc.v", "gen/SyncDec.v", "gen/SyncMisc.v", "gen/SyncAcc.v"],
     "C17": [],
-    "C18": ["gen/SyncEnc.v"],
-    "C19": ["gen/SyncEnc.v", "gen/SyncDec.v"],
+    "C18": ["gen/SyncEnc.v", "gen/SyncAcc.v", "gen/SyncDump.v"],
+    "C19": ["gen/SyncEnc.v", "gen/SyncDec.v", "gen/SyncAcc.v", "gen/SyncDump.v"],
 }
 
 
